@@ -24,6 +24,7 @@ type world struct {
 	deps      [maxPkgs][]int // immutable after setup
 	untracked [maxPkgs]bool
 	invalid   [maxPkgs]bool
+	selfSkip  [maxPkgs]bool
 	faults    [512]string // planned listing fault per invocation index
 	inWindow  [maxTasks]bool
 	lastCount [maxTasks]int64 // unused
@@ -45,6 +46,7 @@ func (w *world) snapshot() *cw.World {
 	for i := 0; i < w.n; i++ {
 		s.Pkgs = append(s.Pkgs, cw.Pkg{Name: pkgName(i), Ver: w.ver[i], Deps: w.deps[i]})
 		s.Untracked = append(s.Untracked, w.untracked[i])
+		s.SelfSkip = append(s.SelfSkip, w.selfSkip[i])
 	}
 	for i, f := range w.faults {
 		if f != "" {
@@ -104,6 +106,9 @@ func (w *world) fingerprint(name string, self bool) string {
 	}
 	if self && w.invalid[i] {
 		return "?"
+	}
+	if self && w.selfSkip[i] {
+		return ""
 	}
 	if !self && w.untracked[i] {
 		return ""
